@@ -263,7 +263,11 @@ void check_C19(Src &s, Ctx &ctx) {
         { std::ostringstream o; o << "sequence on one state: cap " << cap1 << ", iterate moved by " << (mover == 0 ? "vector reference" : mover == 1 ? "constant-step call + reference" : "setX") << " to (" << joind(moved) << "), cap " << cap2; ctx.log(o.str()); }
         bool evaluated_start = false; for (auto &ev : log) if (ev.k == 'F') { evaluated_start = same_bits(ev.x, moved); break; }
         if (cap2 > 0 && !log.empty()) VF_REQUIRE("C19.sequence-stale-start", evaluated_start, "the second call on the same state did not evaluate the objective at the iterate it was started from (" << joind(moved) << ")");
-        double tseq = 64 * (num_tol + 1e-13 * std::max(1.0, std::fabs(f2)));
+        // tolerance of the descent test per step of the second call, with the same data-derived rounding scales as above (the projection of z is exact only up to
+        // eps*|z|; the step size carried over from the first call can be large, so |z| is taken from the log of this call)
+        Scales sq; for (auto &ev : log) { if (ev.k == 'F') sq.F = std::max(sq.F, std::fabs(ev.v)); else if (ev.k == 'G') { for (double v : ev.y) sq.G = std::max(sq.G, std::fabs(v)); for (double v : ev.x) sq.X = std::max(sq.X, std::fabs(v)); }
+            else if (ev.k == 'P') for (double v : ev.x) sq.Z = std::max(sq.Z, std::fabs(v)); }
+        double tseq = (double)(cap2 + 1) * (num_tol + sq.round_tol(P.d)) + 64 * (num_tol + 1e-13 * std::max(1.0, std::fabs(f2)));
         VF_REQUIRE("C19.sequence-worse-than-start", fr2 <= f2 + tseq, "second call on the same state: started at f=" << decd(f2) << " and returned f=" << decd(fr2) << " (iterate moved by " << (mover == 0 ? "vector reference" : mover == 1 ? "constant-step call" : "setX") << ")");
         ctx.count("sequence-runs"); ctx.label(mover == 0 ? "seq:vector-reference" : mover == 1 ? "seq:constant-step" : "seq:setX");
     }
